@@ -398,6 +398,41 @@ def r4_conversion_path(ctx, rep):
                f"links in a nested page are made relative to <out>/{d_page}/<sub-directory>" if ok else
                f"path= is built from {[ast.unparse(e) for e in astq.expand_locals(kw['path'], pn)]}: not <output_dir>/{d_page}/<directory of the page>",
                py.nloc(c))
+    # ... and the converter uses that directory as it is given: every caller passes the *directory* the page is written to, so
+    # nothing may step up from it - least of all on the evidence of `.suffix`, which a directory named `v1.2` has as well
+    cv = py.ifunc("MetaMarkdown.convert")
+    pname = "path"
+    if pname not in [a.arg for a in cv.args.args + cv.args.kwonlyargs]:
+        raise AnalysisError("MetaMarkdown.convert has no `path` parameter")
+
+    def given(x):
+        if isinstance(x, ast.Compare) and len(x.ops) == 1 and isinstance(x.left, ast.Name) and x.left.id == pname and \
+                isinstance(x.comparators[0], ast.Constant) and x.comparators[0].value is None:
+            return ("given", isinstance(x.ops[0], ast.IsNot))
+        if isinstance(x, ast.Name) and x.id == pname:
+            return ("given", True)
+        return None
+    cev = [e for e in astq.trace(cv) if e.kind == "assign" and e.target == "self.current_path" and e.value is not None]
+    if not cev:
+        raise AnalysisError("MetaMarkdown.convert: no assignment to self.current_path")
+    seen_given = 0
+    for e in cev:
+        if astq.event_fires(e, given, {"given": True}) is False:
+            continue
+        seen_given += 1
+        made = astq.expand_locals(e.value, cv)
+        moved = [x for m in made for x in ast.walk(m)
+                 if (isinstance(x, ast.Attribute) and x.attr in ("parent", "parents", "suffix", "stem") and
+                     any(isinstance(y, ast.Name) and y.id == pname for y in ast.walk(x.value)))
+                 or (isinstance(x, ast.Call) and call_name(x).split(".")[-1] in ("dirname", "split", "splitext", "with_suffix", "with_name") and
+                     any(isinstance(y, ast.Name) and y.id == pname for y in ast.walk(x)))]
+        rep.ob("an explicit path= is the base of the page's relative links as it stands", not moved,
+               "self.current_path is the directory the caller names" if not moved else
+               f"`{ast.unparse(moved[0])}`: the directory handed in by the page tree is taken for a file (a directory called `v1.2` has a "
+               f"suffix too) and every relative link, |page|/|media| address and [[entity]] link on its pages is computed one level too high",
+               py.nloc(e.node))
+    if not seen_given:
+        raise AnalysisError("MetaMarkdown.convert: current_path is never set from an explicit path")
     gdef = py.ifunc("pagetree.get_page_tree")
     gp = [c for c in py.walk_calls(py.func("__init__.main")) if call_name(c).split(".")[-1] == "get_page_tree"]
     if not gp:
@@ -692,6 +727,115 @@ def r11_aliases_in_included_text(ctx, rep):
                py.nloc(c))
 
 
+def r12_page_iteration_reaches_every_depth(ctx, rep):
+    """`for page in page_tree` decides which static pages are written and indexed (Documentation.__init__).  The navigation walks
+    `subpages` recursively on its own, so both must reach the same pages: iterating a node yields the node and, for each sub-page,
+    everything that iterating *that sub-page* yields.  `yield from self.subpages` yields the children only - grandchildren are
+    linked from every sidebar but never written."""
+    py = ctx.py
+    fn = py.func("PageNode.__iter__")
+    sub_vars = set()
+    for n in ast.walk(fn):
+        if isinstance(n, (ast.For, ast.comprehension)) and isinstance(n.target, ast.Name) and ast.unparse(n.iter) == "self.subpages":
+            sub_vars.add(n.target.id)
+    recursion = False
+    for n in ast.walk(fn):
+        if isinstance(n, ast.Call):
+            cn = call_name(n)
+            # chain.from_iterable(self.subpages) / chain(*self.subpages) iterate every element
+            if cn.endswith("from_iterable") and n.args and "self.subpages" in ast.unparse(n.args[0]):
+                recursion = True
+            if cn.split(".")[-1] == "chain" and any(isinstance(a, ast.Starred) and "self.subpages" in ast.unparse(a.value) for a in n.args):
+                recursion = True
+            if isinstance(n.func, ast.Attribute) and n.func.attr == "__iter__" and isinstance(n.func.value, ast.Name) and n.func.value.id in sub_vars:
+                recursion = True
+            if cn in ("iter", "list", "tuple") and n.args and isinstance(n.args[0], ast.Name) and n.args[0].id in sub_vars:
+                recursion = True
+        if isinstance(n, ast.YieldFrom) and isinstance(n.value, ast.Name) and n.value.id in sub_vars:
+            recursion = True
+        if isinstance(n, (ast.For, ast.comprehension)) and isinstance(n.iter, ast.Name) and n.iter.id in sub_vars:
+            recursion = True
+        if isinstance(n, ast.Starred) and isinstance(n.value, ast.Name) and n.value.id in sub_vars:
+            recursion = True
+    rep.ob("PageNode.__iter__ yields the pages of every depth", recursion,
+           "each sub-page is iterated in turn" if recursion else
+           "iterating a page yields the page and its direct sub-pages only: pages further down are linked in the navigation but are never "
+           "written or indexed", py.nloc(fn))
+
+
+def r13_line_patterns_stay_in_their_line(ctx, rep):
+    """A Markdown preprocessor receives the page as a list of lines.  A pattern written for one line (`\\|([^ ].*?[^ ]?)\\|` - an
+    alias) can be applied to the joined text only if no match of it can contain a line break; a negated class such as `[^ ]` does
+    match `\\n`, so on the joined text the closing pipe of one table row and the opening pipe of the next become an "alias", and
+    the real alias behind it (`|page|/x.html` at the start of a row) is not substituted.  Decided per application: the subject
+    is one line (an element of the line list), or the language of the pattern's matches contains no line break."""
+    py, rx = ctx.py, ctx.rx
+    n = 0
+    for cname, cls in py.classes.items():
+        if not any(b.endswith("Preprocessor") for b in py.mro(cname)[1:] + [ast.unparse(b) for b in cls.node.bases]):
+            continue
+        if "run" not in cls.methods:
+            continue
+        fn = py.ifunc(f"{cname}.run")
+        params = [a.arg for a in fn.args.args]
+        if len(params) < 2:
+            continue
+        lines = params[1]
+        line_vars = set()
+        for x in ast.walk(fn):
+            if isinstance(x, (ast.For, ast.comprehension)):
+                it = x.iter
+                if isinstance(it, ast.Call) and call_name(it) == "enumerate" and it.args:
+                    it, tg = it.args[0], (x.target.elts[1] if isinstance(x.target, ast.Tuple) and len(x.target.elts) == 2 else None)
+                else:
+                    tg = x.target
+                if isinstance(tg, ast.Name) and any(isinstance(y, ast.Name) and y.id == lines for y in ast.walk(it)):
+                    line_vars.add(tg.id)
+        for c in ast.walk(fn):
+            if not (isinstance(c, ast.Call) and isinstance(c.func, ast.Attribute) and c.func.attr in ("sub", "subn", "search", "match", "finditer", "findall")):
+                continue
+            owner = c.func.value
+            if isinstance(owner, ast.Name) and owner.id == "re":
+                pat_e, subj = (c.args[0] if c.args else None), (c.args[2] if c.func.attr in ("sub", "subn") and len(c.args) > 2 else c.args[1] if len(c.args) > 1 else None)
+            else:
+                pat_e, subj = owner, (c.args[1] if c.func.attr in ("sub", "subn") and len(c.args) > 1 else c.args[0] if c.args else None)
+            if pat_e is None or subj is None:
+                continue
+            key = None
+            if isinstance(pat_e, ast.Attribute):
+                key = next((k for k in ctx.regexes if k.endswith(f"{cname}.{pat_e.attr}") or k.split(".")[-1] == pat_e.attr), None)
+            elif isinstance(pat_e, ast.Name):
+                key = next((k for k in ctx.regexes if k.split(".")[-1] == pat_e.id), None)
+            if key is not None:
+                pat, flags = ctx.regexes[key][0], ctx.regexes[key][1]
+            elif isinstance(pat_e, ast.Constant) and isinstance(pat_e.value, str):
+                pat, flags, key = pat_e.value, 0, repr(pat_e.value)
+            else:
+                continue
+            made = astq.expand_locals(subj, fn)
+            joined = any(isinstance(y, ast.Call) and isinstance(y.func, ast.Attribute) and y.func.attr == "join" and
+                         any(isinstance(z, ast.Name) and z.id == lines for a in y.args for z in ast.walk(a))
+                         for m in made for y in ast.walk(m))
+            one_line = not joined and any(isinstance(y, ast.Name) and y.id in line_vars for m in made for y in ast.walk(m))
+            n += 1
+            if one_line:
+                rep.ob(f"{cname}.run: {key} is applied to one line at a time", True, "the subject is an element of the line list", py.nloc(c))
+                continue
+            if not joined:
+                rep.ob(f"{cname}.run: subject of {key}", True, "neither a line nor the joined text - not decided", py.nloc(c), nontrivial=False)
+                continue
+            try:
+                w = rx.atoms_consuming(pat, "\n", flags)
+            except rx.Unsupported as e:
+                raise AnalysisError(f"{cname}.run: {key}: {e}")
+            rep.ob(f"{cname}.run: {key} on the joined text cannot match across a line break", not w,
+                   "no item of the pattern accepts a line break" if not w else
+                   f"{w} accept(s) a line break: text of two neighbouring lines is taken for one item, and what really starts on the second "
+                   f"line (an alias at the start of a table row) is passed over", py.nloc(c))
+    if n == 0:
+        raise AnalysisError("no pattern application found in any preprocessor")
+
+
 RULES = [
     RuleSpec("C17.R6", r6_links_and_empty_pages, "link fragments survive; an empty page is harmless", floor=1),
     RuleSpec("C17.R1", r1_containment, "containment of a bad page", floor=2),
@@ -704,4 +848,6 @@ RULES = [
     RuleSpec("C17.R9", r9_root_alias_is_relative, "the alias of the output root itself is made relative", floor=1),
     RuleSpec("C17.R10", r10_navigation_reaches_every_depth, "the page navigation is rendered to every depth of the page tree", floor=1),
     RuleSpec("C17.R11", r11_aliases_in_included_text, "aliases are substituted after included files were inserted", floor=1),
+    RuleSpec("C17.R12", r12_page_iteration_reaches_every_depth, "iterating the page tree reaches every depth", floor=1),
+    RuleSpec("C17.R13", r13_line_patterns_stay_in_their_line, "line patterns are applied per line or cannot span a line break", floor=2),
 ]
